@@ -354,7 +354,84 @@ def r5_quoting(ctx):
                 ctx.check(ok, 'C13.R5', f'{func_label(f)}|s3-canonical-uri-shape', loc(f, c), f'S3.{mname}: canonical URI is /<bucket>/<name> (quoting happens once, in _prepare_request)', f'S3.{mname}: canonical URI `{src(u, 60)}` is pre-processed (double or missing quoting)')
 
 
+def r7_exists_answer(ctx, rule='C13.R7'):
+    """exists(): True only after a successful request made in this call, False only
+    for the service's 'not found' answer, everything else propagates; no memo."""
+    corpus = ctx.corpus
+    from ..cfg import cfg_of
+
+    for ci in backend_classes(corpus):
+        if ci.name == 'S3':
+            continue
+        f = own_methods(corpus, ci).get('exists')
+        if f is None:
+            raise AnalysisError(f'{rule}: {ci.name}.exists missing')
+        ctx.analysed(f)
+        cfg = cfg_of(f.node)
+        local_fs = ci.module.rel.endswith('local.py')
+        if local_fs:
+            rets = [r for r in walk_local(f.node) if isinstance(r, ast.Return)]
+            ok = len(rets) == 1 and isinstance(rets[0].value, ast.Call) and dotted(rets[0].value.func) in ('os.path.exists', 'os.path.isfile') and 'self.path / name' in src(rets[0].value)
+            ctx.check(ok, rule, f'{func_label(f)}|exists-asks-the-store', loc(f, f.node), f'{ci.name}.exists answers from the file system for exactly self.path / name', f'{ci.name}.exists no longer answers os.path.exists(self.path / name)')
+            continue
+        reqs = [enclosing_stmt(c) for c in calls_in(f.node) if (dotted(c.func) or '').startswith(('self._client.', 'self._make_request'))]
+        req_ok = [x for st in reqs for x in cfg.nodes_of(st, 'ok')]
+        for r in walk_local(f.node):
+            if not isinstance(r, ast.Return):
+                continue
+            v = r.value
+            site = loc(f, r)
+            if isinstance(v, ast.Constant) and v.value is True:
+                good = bool(req_ok) and all(cfg.set_dominates(req_ok, x) for x in cfg.nodes_of(r, 'stmt'))
+                ctx.check(good, rule, f'{func_label(f)}|true-only-after-successful-request', site, f'{ci.name}.exists returns True only after a request of this call succeeded', f'{ci.name}.exists can return True without a successful request in this call (e.g. from a remembered answer or for an error status): a missing object is reported as present and its upload is skipped')
+            elif isinstance(v, ast.Constant) and v.value is False:
+                g = [a for a in ancestors(r) if isinstance(a, ast.If)]
+                h = [a for a in ancestors(r) if isinstance(a, ast.ExceptHandler)]
+                good = bool(g) and bool(h) and 'NOT_FOUND' in src(g[0].test) and '==' in src(g[0].test) and any(x.endswith('HTTPStatusError') for x in handler_catches(h[0]))
+                ctx.check(good, rule, f'{func_label(f)}|false-only-for-not-found', site, f'{ci.name}.exists returns False only for the NOT_FOUND status', f'{ci.name}.exists returns False for something else than the NOT_FOUND answer')
+            else:
+                ctx.fail(rule, f'{func_label(f)}|exists-returns-computed-value', site, f'{ci.name}.exists returns `{src(v, 60) if v is not None else None}`: the answer is not (True after success | False for NOT_FOUND); statuses such as 403/5xx would be turned into an answer instead of an error')
+        # the status handler re-raises everything else
+        for t in walk_local(f.node):
+            if isinstance(t, ast.Try):
+                for hd in t.handlers:
+                    if any(x.endswith('HTTPStatusError') for x in handler_catches(hd)):
+                        last = hd.body[-1] if hd.body else None
+                        ctx.check(isinstance(last, ast.Raise) and last.exc is None, rule, f'{func_label(f)}|other-statuses-propagate', loc(f, hd), f'{ci.name}.exists re-raises every status error other than NOT_FOUND', f'{ci.name}.exists does not re-raise other status errors: 403 / 5xx answers are turned into an existence answer')
+        # no instance memo consulted
+        reads = {a.attr for a in ast.walk(f.node) if isinstance(a, ast.Attribute) and isinstance(a.value, ast.Name) and a.value.id == 'self' and isinstance(a.ctx, ast.Load)}
+        extra = reads - {'_auth', '_client', '_get_bucket', '_make_request', 'bucket_name', '_bucket', 'path'}
+        ctx.check(not extra, rule, f'{func_label(f)}|no-remembered-answers', loc(f, f.node), f'{ci.name}.exists consults only the service', f'{ci.name}.exists consults instance state {sorted(extra)}: a remembered answer can be stale (object deleted meanwhile / by another client)')
+
+
+def r6_temp_invisible(ctx):
+    from .c03 import r5_temp_invisible
+
+    class _P:
+        def __init__(self, c):
+            self._c = c
+
+        def __getattr__(self, n):
+            return getattr(self._c, n)
+
+        def ok(self, rule, *a):
+            return self._c.ok('C13.R6', *a)
+
+        def fail(self, rule, *a, **k):
+            return self._c.fail('C13.R6', *a, **k)
+
+        def check(self, cond, rule, *a, **k):
+            return self._c.check(cond, 'C13.R6', *a, **k)
+
+        def floor(self, rule, *a):
+            return self._c.floor('C13.R6', *a)
+
+    r5_temp_invisible(_P(ctx))
+
+
 def run(ctx):
+    r7_exists_answer(ctx)
+    r6_temp_invisible(ctx)
     r1_conformance(ctx)
     r2_pagination(ctx)
     r3_prefix(ctx)
